@@ -1,1 +1,32 @@
-fn main() { vkit::main(vec![]) }
+mod c05;
+mod c07;
+mod hist;
+
+use vkit::Property;
+
+fn main() {
+    vkit::main(vec![
+    Property {
+        id: "C05",
+        level: "fault_enumeration",
+        rule: "proptest-generated runtime histories (as C07). Untampered direction: every entry's commit id == H(state root, parents, patch digest, policy) with parents == previous tip, ticks gap-free, every contiguous BTR segment builds and validates, replay succeeds, append of a gap / duplicate tick / unknown parent is refused. Tamper direction: a catalogue of 40 single-field alterations of a retained ProvenanceEntry (each hash of the triplet, tick, worldline id, global tick, parent drop/alter/add, head key, event kind, patch removal, every patch header field, patch warp, patch digest, op drop/dup/alter/swap at 3 positions, slot lists, receipt, outputs, atom writes) applied at EVERY tick for histories <=5 ticks (quick) / <=8 (thorough), 40 sampled (tick, field) pairs beyond; each applied (a) on read through a ProvenanceStore wrapper under PlaybackCursor::seek_to with and without checkpoints, (b) by rebuilding a ProvenanceService from the altered entries (append validation, then replay_worldline_state_at, then a BTR built from it validated against the genuine service); structural edits through the wrapper: entry swap, duplication, truncation, cross-worldline transplant; checkpoint alterations through add_checkpoint (state hash, claimed tick, foreign worldline state). Oracle as the property words it: typed error, or a verified result identical to the original (per-tick commit id / state root / patch digest / parents, final root, full store content). Fields the chain does not bind are tallied as accepted-same-result per field. Non-trivial = alteration at a non-final tick or a structural edit.",
+        assumptions: &[
+            "a verified result is compared on what the chain binds (per-tick hash triple + parents, final state root) and on full store content; replay metadata fed from unbound fields (global tick stamps, diagnostic digests, outputs, atom writes) is not compared",
+            "suffix-bundle export/import is not covered by this check yet",
+        ],
+        subs: c05::subs,
+        max_shards: 16,
+    },
+    Property {
+        id: "C07",
+        level: "exploration",
+        rule: "proptest: generated runtime histories (1-2 worldlines x 1-2 heads, generated initial multi-instance states, scripts of <=44 submit/retry/pass/pause/resume/checkpoint steps whose intents carry data-driven rewrite programs realised against the current state; live ledger recorded after every committed tick). Per worldline: replay at every tick from a checkpoint-free rebuild must equal the live ledger (full store content of every instance, state root, commit id, patch digest) and the harness's own fold of patches from U0; then for histories with <=4 ticks (quick) / <=6 (thorough) EVERY checkpoint subset K of {0..len} x EVERY (start, target) pair: fresh cursor seek(start) then seek(target), and service-level replay, must produce the same materialised WorldlineState (content, tick_history, last_snapshot, tick counter) as the checkpoint-free replay; longer histories use 6 sampled subsets; a 4-24 step random cursor walk (seek, step forward/back, Seek mode, Play, checkpoint insertion); forks at every tick (with the script's own checkpoints copied) replay to the parent's prefix and have no extra history. Non-trivial = a path with a backward move or a checkpoint strictly between position and target.",
+        assumptions: &[
+            "full-state equality uses GraphStore::canonical_state_hash per instance plus instance records; ingress event nodes (foreign ids) are covered by it",
+            "replay reconstructs metadata deterministically, so replayed states are compared with each other in full and with the live frontier on content and hashes",
+        ],
+        subs: c07::subs,
+        max_shards: 16,
+    },
+    ])
+}
